@@ -1,4 +1,5 @@
 import MobiusModel.Board
+import MobiusModel.Announce
 import MobiusModel.Generated.Concurrency
 import MobiusModel.Generated.Consts
 import MobiusModel.Generated.Persist
@@ -293,5 +294,54 @@ example : (runOps ⟨[1, 2, 3], 1, [1, 2, 3]⟩ [Op.read (fun _ => 2), Op.post [
     = ⟨[7, 8, 9, 1, 2, 3], 3, [7, 8, 9, 1, 2, 3]⟩ := by decide
 example : formatPost (ascii "From %s (%s):\n\n%s\n\n__") (ascii "al\nf") (ascii "Jan02 15:04") (ascii "hi\nyou")
     = ascii "From al\rf (Jan02 15:04):\r\rhi\ryou\r\r__\r" := by decide
+
+/-! ## "is announced to all connected users" under concurrency (wave d)
+
+  `post_announced_and_persisted` above is one post with nobody else running.  The announcement, however, is a WALK
+  over `ClientMgr.List()` that other goroutines interleave with (`Announce`): users connect and disconnect, other
+  handlers call `List()`, other posts are announced at the same moment. -/
+
+/-- For EVERY schedule: post `p` not started in `s0`; any events `pre`; `p`'s `SendAll` takes its snapshot; any events
+    `post` (connects, disconnects, `List()` calls, other posts' snapshots and walk steps, interleaved with `p`'s own
+    walk steps, of which there are at least as many as `p`'s audience has members).  Then every client connected at
+    the snapshot – in particular every client connected throughout – has been addressed with `p` EXACTLY once, and
+    nobody else at all.  (Event sequences are arbitrary lists, so this covers every merge – in the sense of
+    `Interleave` – of the posters' programs `snap pᵢ, deliver pᵢ, …` with each other and with everybody else's events.) -/
+theorem post_announced_to_all_connected (s0 : Announce.State) (pre post : List Announce.Ev) (p : Nat)
+    (hnd : s0.clients.Nodup) (h0 : Announce.delivered s0 p = []) (hp0 : s0.pending p = [])
+    (hpre : Announce.Ev.snap p ∉ pre) (hpost : Announce.Ev.snap p ∉ post)
+    (hsteps : (Announce.run s0 pre).clients.length ≤ (post.filter (· = Announce.Ev.deliver p)).length) (c : Nat) :
+    (Announce.delivered (Announce.run s0 (pre ++ Announce.Ev.snap p :: post)) p).count c =
+      if c ∈ (Announce.run s0 pre).clients then 1 else 0 :=
+  Announce.announced_in_every_schedule s0 pre post p hnd h0 hp0 hpre hpost hsteps c
+
+/-- … and at EVERY moment of the walk (not only at its end): announcements of `p` made so far ++ audience still to be
+    addressed = the clients connected at the snapshot.  No event of anybody else can change a walk's audience. -/
+theorem audience_fixed_at_snapshot (s : Announce.State) (p : Nat) (evs : List Announce.Ev)
+    (hns : Announce.Ev.snap p ∉ evs) (h0 : Announce.delivered s p = []) :
+    Announce.delivered (Announce.run (Announce.step s (.snap p)) evs) p ++
+      (Announce.run (Announce.step s (.snap p)) evs).pending p = s.clients :=
+  Announce.audience_is_snapshot s p evs hns h0
+
+/-- NEGATIVE WITNESS (why `List()` must hand out a slice of its own): with ONE reused backing array
+    (`Announce.stepShared`) the schedule  snapshot – first announcement – user 1 disconnects – somebody calls `List()` –
+    rest of the walk  addresses 1, 3, 4, 4: user 2, connected throughout, never hears of the post and user 4 hears
+    twice.  The code as it is (`Announce.step`) addresses 1, 2, 3, 4 in the same schedule. -/
+theorem shared_list_skips_client :
+    let evs : List Announce.Ev := [.snap 7, .deliver 7, .disconnect 1, .list, .deliver 7, .deliver 7, .deliver 7]
+    (Announce.runShared ⟨[1, 2, 3, 4], [], fun _ => (0, 0), []⟩ evs).inbox = [(1, 7), (3, 7), (4, 7), (4, 7)] ∧
+    (Announce.run ⟨[1, 2, 3, 4], fun _ => [], []⟩ evs).inbox = [(1, 7), (2, 7), (3, 7), (4, 7)] := by
+  decide
+
+-- non-vacuity: two posts announced at the same moment while user 2 leaves and user 9 arrives
+example :
+    (Announce.run ⟨[1, 2, 3], fun _ => [], []⟩
+      [.snap 7, .deliver 7, .snap 8, .disconnect 2, .list, .deliver 8, .connect 9, .deliver 7, .deliver 8, .deliver 7,
+       .deliver 8]).inbox =
+    [(1, 7), (1, 8), (2, 7), (2, 8), (3, 7), (3, 8)] := by decide
+-- the hypotheses of `post_announced_to_all_connected` on that schedule, for post 8 (snapshot after one step of post 7)
+example : (Announce.run ⟨[1, 2, 3], fun _ => [], []⟩ [.snap 7, .deliver 7]).clients.length ≤
+    (([.disconnect 2, .list, .deliver 8, .connect 9, .deliver 7, .deliver 8, .deliver 7, .deliver 8] : List Announce.Ev).filter
+      (· = Announce.Ev.deliver 8)).length := by decide
 
 end Mobius.C19
